@@ -820,12 +820,18 @@ class StmtMixin:
         return self.alloc_arr(p, heap, epoch)
 
     def havoc_fresh_boxes(self, p):
-        """Contents of list/dict/set objects: arbitrary for objects allocated since function entry, unchanged for older ones."""
+        """Every field: arbitrary for objects allocated since function entry, unchanged for older ones."""
         ea = self._entry_alloc(p)
+        # objects created by earlier iterations exist: allocation grows
+        old_alloc = self.alloc_arr(p)
+        new_alloc = self._arrays_for(self.ALLOC, BOOL, fresh_name("hva"))[0]
+        r0 = z3.Const(fresh_name("ra"), Ref)
+        p.assume(z3.ForAll([r0], z3.Implies(z3.Select(old_alloc, r0), z3.Select(new_alloc, r0))))
+        p.heap[self.ALLOC] = [new_alloc]
         for key in list(p.heap.keys()):
-            if key == self.ALLOC or key[1] != "$v":
+            if key == self.ALLOC:
                 continue
-            ty = self.classes[key[0]].fields["$v"]
+            ty = self.classes[key[0]].fields[key[1]]
             old = p.heap[key]
             new = self._arrays_for(key, ty, fresh_name("hvb"))
             r = z3.Const(fresh_name("rb"), Ref)
@@ -840,7 +846,7 @@ class StmtMixin:
         for key, arrs in p.heap.items():
             if key in allowed:
                 continue
-            if getattr(spec, "fresh_boxes", False) and key != self.ALLOC and key[1] == "$v":
+            if getattr(spec, "fresh_boxes", False) and key != self.ALLOC:
                 before = havoc_heap.get(key) or self.init_heap.get((p.epoch, key))
                 if before is None or all(a.eq(b) for a, b in zip(arrs, before)):
                     continue
